@@ -11,6 +11,14 @@ J2  every instance TLC emitted becomes a real tskit tree sequence and the real
     exactly (integer coordinates, A1); ConditionalCoalescentTimes.mixture_expect_and_var
     and MixturePrior.prior_params (lognorm and gamma) must match TLC's mixture moments
     (close12 / moment-matching predicates of C14).
+J1' TLC (module SpansIncr): first_pass itself -- the incremental edge-diff bookkeeping (changed,
+    disappearing nodes, re-save when the number of attached samples changes) -- as a state machine,
+    one action per loop iteration; invariants Bookkeeping, TrackedIffPresent, PendingConstant,
+    AccumulatedExact, FinalExact say it refines the declarative tables at every breakpoint; three
+    named deviations must be refuted by TLC.
+J3  loop traces of the real first_pass (vt/spansincr_common.py, sys.settrace keyed on source text)
+    are stepped against that machine by SpansIncrTrace.tla: internal state is conformance drift,
+    the tables the code ends with are judged against the per-tree count (Must clauses).
 J2' simulated inputs (recombination, polytomies, samples deleted over intervals) are judged
     by the Python mirror of Span / MixMean / MixVar -- a direct per-tree count --
     mirror_sync'd against every TLC instance of this run.
@@ -20,6 +28,7 @@ import numpy as np
 
 from .. import build, harness, inputs
 from .. import prior_common as pc
+from .. import spansincr_common as si
 
 PID = "C15"
 F = pc.F
@@ -218,6 +227,8 @@ def run(ctx):
     for rec in insts:
         replay_instance(ctx, rec)
     ctx.count("tlc_instances_replayed", len(insts))
+    si.model_check(ctx)
+    si.trace_leg(ctx, PID, insts, cap=200 if ctx.quick else 1500)
     for name, ts, info in sim_corpus(ctx):
         check_simulated(ctx, name, ts, info)
         ctx.traces += 1
